@@ -435,12 +435,22 @@ Proof.
 Qed.
 
 (* ====================== one statement never panics ====================== *)
+(* hypotheses: CREATE TABLE column names pairwise distinct; INSERT / UPDATE literals are Go values
+   (int64, strings < 4 GiB); CREATE TABLE / INSERT keep the file below 2^63 bytes. DELETE, SELECT
+   and the session statements need none. *)
+Definition np_hyp (s : store) (st : stmt) : bool :=
+  match st with
+  | SCreateTable _ _ | SInsert _ _ _ => stmt_ok st && N.leb (nextFree (e_store (run_stmt s st))) OFFMAX
+  | _ => stmt_ok st
+  end.
+
 Theorem run_stmt_no_panic s d st :
-  Rep s d -> stmt_ok st = true -> nextFree (e_store (run_stmt s st)) <= OFFMAX ->
-  e_out (run_stmt s st) <> OPanic.
+  Rep s d -> np_hyp s st = true -> e_out (run_stmt s st) <> OPanic.
 Proof.
-  intros HR Hst Hmax.
+  intros HR Hh.
   destruct st as [q|n cds|n| |n|n cols rows|n sets w|n w]; try (cbn [run_stmt e_out]; discriminate).
+  1,2: cbn [np_hyp] in Hh; apply andb_true_iff in Hh as [Hst Hmax]; apply N.leb_le in Hmax.
+  3,4: cbn [np_hyp] in Hh; rename Hh into Hst.
   - (* CREATE TABLE *)
     cbn [stmt_ok] in Hst. apply nodupb_NoDup in Hst. cbn [run_stmt] in *.
     pose proof (st_create_table_np s d n (map fielddef_of cds) HR ltac:(rewrite names_fielddefs; exact Hst)) as Hn.
@@ -620,7 +630,9 @@ Proof.
   intros [HR HI] Hh. unfold stmt_hyp in Hh.
   apply andb_true_iff in Hh as [Hh Hearly]. apply andb_true_iff in Hh as [Hh Hmv].
   apply andb_true_iff in Hh as [Hok Hmax]. apply N.leb_le in Hmax.
-  pose proof (run_stmt_no_panic (mem y) d st HR Hok Hmax) as Hnp.
+  assert (Hnph : np_hyp (mem y) st = true).
+  { unfold np_hyp. destruct st; try exact Hok; (apply andb_true_iff; split; [exact Hok | apply N.leb_le; exact Hmax]). }
+  pose proof (run_stmt_no_panic (mem y) d st HR Hnph) as Hnp.
   assert (Hat : CrashMain.stmt_atomic (mem y) st).
   { unfold CrashMain.stmt_atomic. intros Hno.
     destruct (e_out (run_stmt (mem y) st)) as [c|e|] eqn:Eo; [discriminate | | congruence].
